@@ -69,8 +69,9 @@ def scan_loop(current_idx, tm_list, concatenated_packets, ids_raw, analysis_queu
     B = concatenated_packets
     invariant("idx-range", both(0 <= current_idx, current_idx <= len(B)))
     invariant("queue-empty", len(analysis_queue) == 0)
-    unfold(ref_scan, B, current_idx, ids_raw)
-    unfold(ref_end, B, current_idx, ids_raw)
+    if loop_phase() != "preserved":     # the definitional facts are needed where the invariant is assumed: at the old offset
+        unfold(ref_scan, B, current_idx, ids_raw)
+        unfold(ref_end, B, current_idx, ids_raw)
     invariant("emitted", tm_list + ref_scan(B, current_idx, ids_raw) == ref_scan(B, 0, ids_raw))
     invariant("end", ref_end(B, current_idx, ids_raw) == ref_end(B, 0, ids_raw))
     decreases(len(B) - current_idx)
